@@ -248,6 +248,22 @@ func flatten(xs [][]byte) ([]byte, []uint32) {
 	return data, offs
 }
 
+// flattenBased is flatten with, half of the time, unrelated bytes before and after the values, so that
+// offsets[0] > 0: the shape the offsets of a sliced byte array page have (full buffer, sub-sliced offsets).
+func flattenBased(r *gen.Rand, c *Ctx, xs [][]byte) ([]byte, []uint32) {
+	data, offs := flatten(xs)
+	if !r.Bool() {
+		return data, offs
+	}
+	pre := r.Bytes(1 + r.Intn(40))
+	out := append(append(append([]byte{}, pre...), data...), r.Bytes(r.Intn(9))...)
+	for i := range offs {
+		offs[i] += uint32(len(pre))
+	}
+	c.Obs("byte_array_offsets_not_from_zero", 1)
+	return out, offs
+}
+
 func runC04(c *Ctx) {
 	r := c.R
 	n := seqLen(r)
@@ -319,7 +335,7 @@ func runC04(c *Ctx) {
 				xs, sh := genByteArrays(r, n, 0)
 				shape = sh
 				k.input = canonBA(xs)
-				data, offs := flatten(xs)
+				data, offs := flattenBased(r, c, xs)
 				k.encoded, err = parquet.Plain.EncodeByteArray(dirtyBytes(r, len(data)+4*n), data, offs)
 				if err != nil {
 					return
@@ -564,6 +580,7 @@ func runC04(c *Ctx) {
 				e, enum, k.encName = &parquet.DeltaByteArray, specreader.EDeltaByteArray, "DELTA_BYTE_ARRAY"
 			}
 			k.kindName = "BYTE_ARRAY"
+			data, offs = flattenBased(r, c, xs)
 			k.encoded, err = e.EncodeByteArray(dirtyBytes(r, len(data)), data, offs)
 			if err != nil {
 				return
